@@ -247,6 +247,11 @@ class Module:
         with open(path, encoding="utf-8") as fh:
             self.src = fh.read()
         self.tree = ast.parse(self.src, filename=path)
+        self.canon_notes: list = []
+        if os.environ.get("VERIF_NO_CANON") != "1":
+            from . import canon
+
+            self.tree, self.canon_notes = canon.canonicalise(self.tree, name)
         self.is_package = os.path.basename(path) == "__init__.py"
         self.imports: dict[str, str] = {}
         self.assigns: dict[str, ast.expr] = {}
